@@ -3,6 +3,7 @@ use crate::engine::{Plan, Tier};
 
 pub mod c01;
 pub mod c12;
+pub mod c13;
 
 pub const ALL: &[&str] = &[
     "C01", "C02", "C03", "C04", "C05", "C06", "C07", "C08", "C09", "C10", "C11", "C12", "C13",
@@ -13,6 +14,7 @@ pub fn plan(id: &str, tier: Tier) -> Option<Plan> {
     match id {
         "C01" => Some(c01::plan(tier)),
         "C12" => Some(c12::plan(tier)),
+        "C13" => Some(c13::plan(tier)),
         _ => None,
     }
 }
